@@ -1026,31 +1026,41 @@ CATALOGUE['C13'] = [
       """        s = sequence
         s.reverse()
         return s""", 'C13.R1'),
-    V('renderwb sorts the looked-up list directly', 'DT_In.py',
-      """        if self.sort_expr is not None:
-            self.sort = self.sort_expr.eval(md)
-            sequence = self.sort_sequence(sequence, md)
-        elif self.sort is not None:
-            sequence = self.sort_sequence(sequence, md)
-
-        if self.reverse_expr is not None and self.reverse_expr.eval(md):
-            sequence = self.reverse_sequence(sequence)
-        elif self.reverse is not None:
+    V('renderwb reverses the looked-up list directly', 'DT_In.py',
+      """        elif self.reverse is not None:
             sequence = self.reverse_sequence(sequence)
 
         next = previous = 0""",
-      """        if self.sort_expr is not None:
-            self.sort = self.sort_expr.eval(md)
-            sequence = self.sort_sequence(sequence, md)
-        elif self.sort is not None:
-            sequence = self.sort_sequence(sequence, md)
-
-        if self.reverse_expr is not None and self.reverse_expr.eval(md):
-            sequence = self.reverse_sequence(sequence)
-        elif self.reverse is not None:
+      """        elif self.reverse is not None:
             sequence.reverse()
 
         next = previous = 0""", 'C13.R1'),
+    V('desc by reversing a stable sort', 'DT_In.py',
+      """            s.sort(key=itemgetter(0))
+
+        sequence = []""",
+      """            s.sort(key=itemgetter(0))
+            if self.reverse:
+                s.reverse()
+
+        sequence = []""", 'C13.R2'),
+    V('None handled before the call step', 'DT_In.py',
+      """                    if not basic_type(type(k)) and callable(k):
+                        try:
+                            k = k()
+                        except Exception:
+                            k = _Smallest
+                    if k is None:
+                        k = _Smallest
+""",
+      """                    if k is None:
+                        k = _Smallest
+                    if not basic_type(type(k)) and callable(k):
+                        try:
+                            k = k()
+                        except Exception:
+                            k = _Smallest
+""", 'C13.R4'),
     V('unkeyed sort', 'DT_In.py',
       "            s.sort(key=itemgetter(0))", "            s.sort()",
       'C13.R2'),
